@@ -67,6 +67,9 @@ pub uninterp spec fn spec_trim_end(s: Seq<char>) -> Seq<char>;
 pub fn vx_trim(a: &str) -> (r: &str) ensures r@ == spec_trim(a@) { a.trim() }
 #[verifier::external_body]
 pub fn vx_trim_end(a: &str) -> (r: &str) ensures r@ == spec_trim_end(a@) { a.trim_end() }
+pub uninterp spec fn spec_trim_start(s: Seq<char>) -> Seq<char>;
+#[verifier::external_body]
+pub fn vx_trim_start(a: &str) -> (r: &str) ensures r@ == spec_trim_start(a@) { a.trim_start() }
 #[verifier::external_body]
 pub fn vx_starts_with_char(a: &str, c: char) -> (r: bool) ensures r == (a@.len() > 0 && a@[0] == c) { a.starts_with(c) }
 #[verifier::external_body]
